@@ -21,7 +21,7 @@
     `atmOK s t`            NOT (target atmosphere type 0 and source type 1 or 2).
 -/
 import PyTough.Model.Mapping
-import PyTough.Proofs.MappingRock
+import PyTough.Proofs.MappingGen
 
 namespace Props.C19
 open Py Model.Mapping
@@ -254,5 +254,64 @@ theorem rocktype_transfer_identity (sr m : Dict Str) (tb : List Str) (rock : Str
     (hid : ∀ b ∈ tb, dget m b = .ok b) (hsr : ∀ b ∈ tb, dget sr b = .ok (rock b)) :
     transferRocktypes sr m tb = .ok (tb.map rock) :=
   Proofs.Mapping.rocktypes_identity sr m tb rock hid hsr
+
+/-! ### transferring a model (`t2data`): generators onto an identical geometry
+
+  `transferGenerators q gens s t sgridVol tgrid incolFlags top bottom mapping colmapping rename preserve`
+  is the new `generatorlist`; each item is (index of the source generator it is a `deepcopy` of,
+  name, block, gx, rate) — the attributes the method may change.  Inputs of the model that come
+  from other parts of the library: the block volumes of the two grids (`sgridVol`, `tgrid`), and
+  which target columns lie inside the source (`incolFlags`).
+  `genIdentitySetting`: identical geometry, identity block / column mappings, every column
+  inside, unique block names.  `genPlaced`: the generator sits where its name says — its name is
+  the block name of (its category, the column of its block); a top generator is on the top block
+  of its column, a bottom generator in the bottom layer, any other on a block of the grid with
+  the same volume in both grids; a table generator has its `rate` list. -/
+
+/-- Every generator is reproduced item for item (same name, block, gx, rate; everything else
+    is a `deepcopy`), for generators at top, bottom and interior blocks, with and without
+    tables, with and without renaming, with and without preservation of totals. -/
+theorem generator_transfer_identity (q : List (Rat × Rat) → Rat × Rat → Nat) (gens : List Gen) (g : Geo)
+    (sgridVol : Dict Rat) (tgrid : List (Str × Rat)) (flags : List Bool) (top bottom : List Str)
+    (m cm : Dict Str) (rename preserve : Bool)
+    (hset : genIdentitySetting g tgrid flags m cm = true)
+    (hgens : ∀ sg ∈ gens, genPlaced g sgridVol tgrid top bottom sg = true) :
+    transferGenerators q gens g g sgridVol tgrid flags top bottom m cm rename preserve =
+      .ok ((enumFrom 0 gens).map (fun p => ⟨p.1, p.2.name, p.2.block, p.2.gx, p.2.rate⟩)) :=
+  Proofs.Mapping.generators_identity q gens g sgridVol tgrid flags top bottom m cm rename preserve hset hgens
+
+/-- hence the total generation is unchanged: the list of (gx, rate) is the same list -/
+theorem generator_totals_identity (q : List (Rat × Rat) → Rat × Rat → Nat) (gens : List Gen) (g : Geo)
+    (sgridVol : Dict Rat) (tgrid : List (Str × Rat)) (flags : List Bool) (top bottom : List Str)
+    (m cm : Dict Str) (rename preserve : Bool)
+    (hset : genIdentitySetting g tgrid flags m cm = true)
+    (hgens : ∀ sg ∈ gens, genPlaced g sgridVol tgrid top bottom sg = true) :
+    ∃ outs, transferGenerators q gens g g sgridVol tgrid flags top bottom m cm rename preserve = .ok outs ∧
+      outs.map (fun o => (o.gx, o.rate)) = gens.map (fun sg => (sg.gx, sg.rate)) := by
+  refine ⟨_, generator_transfer_identity q gens g sgridVol tgrid flags top bottom m cm rename preserve hset hgens, ?_⟩
+  rw [List.map_map]
+  generalize 0 = n
+  induction gens generalizing n with
+  | nil => rfl
+  | cons a as ih =>
+    simp only [enumFrom, List.map_cons, Function.comp_apply, List.cons.injEq, true_and]
+    exact ih (fun sg hsg => hgens sg (List.mem_cons_of_mem _ hsg)) (n + 1)
+
+/-- the blocks of `exSrc 0`, each of volume 1000, and the identity mappings on them -/
+def exGrid : List (Str × Rat) :=
+  match (exSrc 0).blockNameList with
+  | .ok names => names.map (fun n => (n, 1000))
+  | .error _ => []
+def exIdMap : Dict Str := exGrid.map (fun b => (b.1, b.1))
+def exIdCols : Dict Str := (exSrc 0).cols.map (fun c => (c.name, c.name))
+/-- a top generator ('99') on the top block of column 'b' with a rate table, a bottom generator
+    ('98') under column 'a', an interior one -/
+def exGens : List Gen :=
+  [⟨[' ', ' ', 'b', '9', '9'], [' ', ' ', 'b', ' ', '2'], ['M', 'A', 'S', 'S'], some 2, some 5, some [1, 2]⟩,
+   ⟨[' ', ' ', 'a', '9', '8'], [' ', ' ', 'a', ' ', '3'], ['H', 'E', 'A', 'T'], some 0, some (-3), some []⟩,
+   ⟨[' ', ' ', 'a', 'w', 'l'], [' ', ' ', 'a', ' ', '2'], ['M', 'A', 'S', 'S'], none, some 7, none⟩]
+
+example : genIdentitySetting (exSrc 0) exGrid [true, true] exIdMap exIdCols = true ∧
+    ∀ sg ∈ exGens, genPlaced (exSrc 0) exGrid exGrid [['9', '9']] [['9', '8']] sg = true := by decide +kernel
 
 end Props.C19
